@@ -388,6 +388,14 @@ def c07_programs(rng, bw, n, known_class=False, max_branches=5, trunc_tail=False
                     else:
                         a.push(v)
                     depth += 1
+                elif r < 0.34 and depth < 1000:
+                    # a comparison of EQUAL (or adjacent) constants decides a memory offset: the machine folds it to pick
+                    # the cell, so a wrong fold moves the write although the value trees still evaluate correctly
+                    x = operand()
+                    y = rng.choice([x, x, (x + 1) % 2 ** 256, (x - 1) % 2 ** 256])
+                    a.push(operand()).push(y).push(x).op(rng.choice(["GT", "SGT", "LT", "SLT", "EQ"]))
+                    a.push(0x20).op("MUL").op("MSTORE")
+                    a.push(rng.choice([0, 0x20])).op("MLOAD"); depth += 1
                 elif r < 0.6:
                     a.op(rng.choice(ALU2)); depth -= 1
                 elif r < 0.66:
@@ -569,6 +577,22 @@ def assemble_ext(a):
 ADDR_MASK = 2 ** 160 - 1
 
 
+def hash_lookalikes():
+    """constants that are NOT keccak(small slot) but share much with one: the low 128 bits (high half differs), everything
+    but the top bit, everything but the lowest bit"""
+    import keccak
+    out = []
+    for n in (0, 1, 3, 7):
+        h = keccak.keccak_of_slot(n)
+        out += [(1 << 128) + (h % (1 << 128)), h ^ (1 << 255), h ^ 1]
+    return out
+
+
+def special_hash_slots():
+    """small slot numbers whose keccak has an unusual shape: leading zero byte (480, 581, 732 are the first), and ordinary ones"""
+    return [479, 480, 481, 581, 732]
+
+
 class Var:
     """kind: 'word' | 'address' | 'mapping' | 'dynarray' | 'packed'
        mapping: keys = list of 'word' | 'address' (depth = len), value = 'word' | 'address'
@@ -631,14 +655,20 @@ def compile_branch(a, v, rng):
                 _mapping_slot(a, v)
                 a.op("SSTORE")
         elif v.kind == "dynarray":
+            def data_start():
+                if v.style == "folded":       # what an optimising compiler emits: keccak(slot) as a constant
+                    import keccak
+                    a.push(keccak.keccak_of_slot(v.slot))
+                else:
+                    a.push(v.slot).push(0).op("MSTORE").push(0x20).push(0).op("SHA3")
             if mode == "r":
                 a.push(v.slot).op("SLOAD").op("POP")          # length
-                a.push(v.slot).push(0).op("MSTORE").push(0x20).push(0).op("SHA3")
+                data_start()
                 _arg(a, 0)
                 a.op("ADD").op("SLOAD").push(0).op("MSTORE")
             else:
                 _arg(a, 1)
-                a.push(v.slot).push(0).op("MSTORE").push(0x20).push(0).op("SHA3")
+                data_start()
                 _arg(a, 0)
                 a.op("ADD").op("SSTORE")
         elif v.kind == "packed":
@@ -700,6 +730,7 @@ def random_vars(rng, n, slots=None):
             2 ** 200 + 11, 2 ** 255 + 1,
             # slot numbers whose 32 bytes read as left-aligned printable text ("A", "balances", "owner")
             0x41 << 248, int.from_bytes(b"balances".ljust(32, b"\0"), "big"), int.from_bytes(b"owner".ljust(32, b"\0"), "big")]
+    pool += special_hash_slots() + hash_lookalikes()[:6]
     slots = slots or rng.sample(pool, n)
     out = []
     for s in slots:
@@ -729,6 +760,8 @@ def random_vars(rng, n, slots=None):
             srcs = ["caller" if (sz == 160 and rng.random() < 0.6) else "bool" if (sz == 8 and rng.random() < 0.4) else "arg"
                     for _, sz in fields]
             out.append(Var("packed", s, access, fields=fields, style=rng.choice(["shl", "mul"]), srcs=srcs))
+        elif k == "dynarray" and s < 10000 and rng.random() < 0.6:
+            out.append(Var(k, s, access, style="folded"))
         else:
             out.append(Var(k, s, access))
     return out
@@ -857,11 +890,25 @@ def hostile_programs(rng, bw, n):
             for _ in range(rng.choice([8, 20, 70, 300])):
                 a.raw([0x80]).op(rng.choice(["MUL", "ADD", "EXP", "SHL"]))
             a.push(0).op("SSTORE")
-        elif kind == 7:    # SLOAD / SHA3 towers
+        elif kind == 7 and rng.random() < 0.5:    # SLOAD / SHA3 towers
             a.push(rng.choice(big))
             for _ in range(rng.choice([4, 16, 40, 80])):
                 a.op("SLOAD") if rng.random() < 0.7 else a.push(0).op("MSTORE").push(0x20).push(0).op("SHA3")
             a.push(1).op("SSTORE")
+        elif kind == 7:    # doubling towers through memory: h = op(h ++ h), unrolled past 64 rounds (a size that doubles every
+            #                 round overflows a 64-bit counter unless every constructor respects the value-size limit)
+            a.push(0).op(rng.choice(["SLOAD", "CALLDATALOAD"]))
+            rounds = rng.choice([12, 40, 66, 70, 90])
+            wrap = rng.choice(["SHA3", "SHA3", "MLOAD2", "ADD"])
+            for _ in range(rounds):
+                a.raw([0x80]).push(0).op("MSTORE").push(0x20).op("MSTORE")
+                if wrap == "SHA3":
+                    a.push(0x40).push(0).op("SHA3")
+                elif wrap == "MLOAD2":
+                    a.push(0).op("MLOAD").push(0x20).op("MLOAD").op("OR")
+                else:
+                    a.push(0).op("MLOAD").push(0x20).op("MLOAD").op("ADD")
+            a.push(0).op("SSTORE")
         elif kind == 8:    # call-data sizes and offsets
             a.push(rng.choice(big)).push(rng.choice(big)).push(rng.choice(big)).op("CALLDATACOPY")
             a.push(rng.choice(big)).op("CALLDATALOAD").push(rng.choice(big)).op("AND").push(0).op("SSTORE")
@@ -1105,3 +1152,33 @@ def _tramp_entry(a, rng, i, last=False):
     else:
         a.push_label("OK").push(1)
     a.push_label("T").op("JUMP")
+
+
+def string_shape_programs(rng, n):
+    """a slot that is packed like solidity's short `bytes` / `string` header (a flag bit, a 7-bit length, the data bits: spans
+    (0,1) (1,7) (8,248) and variations) AND used as the length slot of a dynamic array; the span elements are stable values
+    (call-data words) that also occur in other stored values, so which occurrence is registered first depends on the order
+    in which storage / memory are walked."""
+    out = []
+    for _ in range(n):
+        a = Asm()
+        s = rng.randrange(0, 4)
+        other = s + 5
+        m1, m2 = rng.choice([(0x01, 0xfe), (0x01, 0xfe), (0xff, 2 ** 256 - 256), (0x01, 2 ** 256 - 2), (0x03, 0xfc)])
+        # A = cd[0] & m1 ; B = cd[32] & m2
+        a.push(m1).push(0).op("CALLDATALOAD").op("AND")
+        a.push(m2).push(0x20).op("CALLDATALOAD").op("AND")
+        order = rng.randrange(3)
+        if order != 2:
+            a.raw([0x80]).push(other).op("SSTORE")            # B (or A) also stored on its own
+        if order == 1:
+            a.raw([0x81]).push(other + 1).op("SSTORE")
+        a.op("OR").push(s).op("SSTORE")                       # sstore(s, A | B)
+        # slot s as the length slot of a dynamic array
+        a.push(s).push(0).op("MSTORE")
+        a.op(rng.choice(["CALLER", "CALLVALUE"])).push(0x20).push(0).op("SHA3").push(0x40).op("CALLDATALOAD").op("ADD").op("SSTORE")
+        if rng.random() < 0.4:
+            a.push(s).op("SLOAD").push(1).op("AND").op("POP")
+        a.op("STOP")
+        out.append(a.assemble())
+    return out
